@@ -89,6 +89,8 @@ class GW(StoreW):
         # from here on the source's long values belong to a private object only
         src_ops = [op for op in self.ops[tid] if op.get("out") == o.ref and op.get("f") == "C_CreateObject"]
         vals = [e[2] for op in src_ops for e in op["tmpl"] if e[1] == "x" and len(e[2]) >= 24 and e[0] in (K.CKA_VALUE, K.CKA_PRIVATE_EXPONENT, K.CKA_PRIME_1, K.CKA_PRIME_2)]
+        if self.info.get(o.ref, {}).get("kind") not in ("aes", "generic", "des3", "data", "cert"):
+            vals = []     # key-pool values (RSA/EC private parts) are shared by every object made from the same pool entry, public ones included: not "only in a private object"
         for v in vals:
             self.emit({"act": "secret", "hex": v, "label": "upgraded:" + ref}, tid)
         self.emit({"act": "disk", "data": True}, tid)
@@ -156,7 +158,14 @@ def check(plan, r):
     st("private_values_registered", len(plan.get("disk_secrets", [])))
     st("writes_scanned", (r.result or {}).get("fsops", {}).get("write", 0))
     # (i) plaintext / master key on disk at any write instant
+    ops0 = [op for t in plan["tasks"] for op in t["ops"]]
+    def upgrade_intact(label):
+        """an 'upgraded:<copy>' secret only means something while the plan still holds the upgrading copy AND the destruction of its public source (the minimiser may have dropped them)"""
+        if not label.startswith("upgraded:"): return True
+        cp = [op for op in ops0 if op.get("f") == "C_CopyObject" and op.get("out") == label[9:] and op.get("upgrade")]
+        return bool(cp) and any(op.get("f") == "C_DestroyObject" and op.get("o") == cp[0].get("o") for op in ops0)
     for e in hist.mons(r, "plaintext_on_disk"):
+        if not upgrade_intact(e["d"].get("secret", "")): continue
         viols.append(_v("C06.plaintext_on_disk", "after a write of call #%s the file %s contains %s in the clear" % (e.get("op"), e["d"]["path"].split("/")[-1], describe_secret(e["d"]["secret"])),
                         call=opname_at(plan, e), op=e.get("op"), secret=e["d"]["secret"].split(":")[0].rstrip("0123456789")))
     # (iv) creation modes
